@@ -10,9 +10,9 @@ use serde_json::{json, Value};
 pub struct P;
 pub static C12: P = P;
 
-pub const ATOMS: [&str; 13] = ["", "ab", "ab cd", "  ab", "ab  ", "a\tb", "\tab", "ab\t", "中a 中", "abcdefgh", "a   b", " ", "abcdefg\tx"];
+pub const ATOMS: [&str; 14] = ["", "ab", "ab cd", "  ab", "ab  ", "a\tb", "\tab", "ab\t", "中a 中", "abcdefgh", "a   b", " ", "abcdefg\tx", "中中中中中abcd"];
 const CTXS: [(&str, &str, &str, usize); 3] = [("top", "<pre>", "</pre>", 0), ("li", "<ul><li><pre>", "</pre></li></ul>", 2), ("quote", "<blockquote><pre>", "</pre></blockquote>", 2)];
-const VARIANTS: [&str; 5] = ["text", "first word of each line in <b>", "lines separated by <br>", "lines separated by newline + <br> (a blank line between)", "lines separated by <br> + newline"];
+const VARIANTS: [&str; 6] = ["text", "first word of each line in <b>", "lines separated by <br>", "lines separated by newline + <br> (a blank line between)", "lines separated by <br> + newline", "tail of each word in <i> (tag boundary inside the word)"];
 
 pub fn expand(l: &str) -> String {
     let mut out = String::new();
@@ -56,6 +56,31 @@ fn build_html(c: &Case) -> String {
                     }
                     None => l.clone(),
                 }
+            } else if c.variant == 5 {
+                // every run of non-blank characters: untagged head, <i> tail
+                let mut out = String::new();
+                let mut word = String::new();
+                let flush = |word: &mut String, out: &mut String| {
+                    let n = word.chars().count();
+                    if n >= 2 {
+                        let head: String = word.chars().take(n - n / 3 - if n / 3 == 0 { 1 } else { 0 }).collect();
+                        let tail: String = word.chars().skip(head.chars().count()).collect();
+                        out.push_str(&format!("{head}<i>{tail}</i>"));
+                    } else {
+                        out.push_str(word);
+                    }
+                    word.clear();
+                };
+                for ch in l.chars() {
+                    if ch.is_whitespace() {
+                        flush(&mut word, &mut out);
+                        out.push(ch);
+                    } else {
+                        word.push(ch);
+                    }
+                }
+                flush(&mut word, &mut out);
+                out
             } else {
                 l.clone()
             }
@@ -98,7 +123,7 @@ fn check(c: &Case, cx: &mut Cx) {
     // source lines as the browser sees them: <br> is a line break like a newline
     let mut src: Vec<String> = vec![];
     for (i, l) in c.lines.iter().enumerate() {
-        if i > 0 && c.variant >= 3 {
+        if i > 0 && matches!(c.variant, 3 | 4) {
             src.push(String::new());
         }
         src.push(l.clone());
@@ -237,7 +262,7 @@ impl Scope for S {
         let idx = decode(code, &vec![ATOMS.len(); k]);
         let lines: Vec<String> = idx.iter().map(|&i| ATOMS[i].to_string()).collect();
         let maxw = self.tier.pick(18, if k <= 2 { 60 } else if k == 3 { 30 } else { 18 });
-        let nvar = self.tier.pick(if k <= 2 { 5 } else { 2 }, 5);
+        let nvar = self.tier.pick(if k <= 2 { 6 } else { 2 }, 6);
         for ctx in 0..CTXS.len() {
             for variant in 0..nvar {
                 for width in 1..=maxw {
@@ -248,7 +273,7 @@ impl Scope for S {
     }
     fn info(&self) -> Info {
         Info {
-            rule: "every pre block of up to maxk lines over 13 line shapes (empty, words, leading/trailing/interior spaces, tabs at start/middle/end and across column 8, wide characters, a full-width word, spaces only) x {top level, list item, quote} x {plain text, first word in <b>, <br> / newline+<br> / <br>+newline as separators} x every width; non-trivial = some source line does not fit".into(),
+            rule: "every pre block of up to maxk lines over 14 line shapes (empty, words, leading/trailing/interior spaces, tabs at start/middle/end and across column 8, wide characters, a full-width word, spaces only) x {top level, list item, quote} x {plain text, first word in <b>, <br> / newline+<br> / <br>+newline as separators} x every width; non-trivial = some source line does not fit".into(),
             bounds: json!({"line_shapes": ATOMS, "max_lines": self.maxk, "contexts": ["top", "li", "quote"], "variants": VARIANTS, "widths": self.tier.pick("1..=18", "1..=60 (<=2 lines), 1..=30 (3 lines), 1..=18 (4 lines)")}),
             assumptions: vec!["rich decorator; tab stops every 8 columns counted from the start of the block's own width".into()],
         }
